@@ -194,6 +194,7 @@ def run(ctx):
             break
     ctx.count(nruns)
     ctx.extra['oracle_runs'] = nruns
+    ctx.run_modes()
     return ctx.finish(
         LEVEL,
         explanation='Theorems: the block loop writes out[i] = f(peak i) for all n >= 0 and buffer counts >= 1 (tail block, bc > n), blocks cover every '
